@@ -642,7 +642,7 @@ func (s *PersistentHybridIndex) maybeScheduleFlush() {
 	}
 }
 
-// Flush forces a flush of all frozen memtables to disk.
+// Flush forces a flush of all memtables to disk, including the active one.
 // This is synchronous and blocks until flush completes.
 //
 // Returns:
@@ -654,6 +654,9 @@ func (s *PersistentHybridIndex) Flush() error {
 		return fmt.Errorf("storage is closed")
 	}
 	s.mu.RUnlock()
+
+	// Freeze the active memtable so its documents are flushed as well
+	s.memtableQueue.rotateIfNotEmpty()
 
 	return s.flushMemtables()
 }
@@ -810,7 +813,8 @@ func (s *PersistentHybridIndex) flushWorker() {
 				fmt.Printf("flush error: %v\n", err)
 			}
 		case <-s.closeChan:
-			// Final flush before closing
+			// Final flush before closing, including the active memtable
+			s.memtableQueue.rotateIfNotEmpty()
 			s.flushMemtables()
 			return
 		}
